@@ -47,6 +47,11 @@ QUEUED_START = [["H\txx:i:1", "L\ta\t+\tb\t-\t*"], ["P\tp\ta+,b-\t*"], ["X\tcust
 
 def cases(rng, tier, shard, nshards):
     while True:
+        if rng.random() < 0.04:
+            yield {"k": "journal", "vlevel": rng.choice([0, 1, 1, 2, 3]), "nbase": rng.choice([3, 4, 4]),
+                   "steps": [("ok", rng.randrange(4)) if rng.random() < 0.3 else ("refused", rng.randrange(9))
+                             for _ in range(rng.randint(2, 6))]}
+            continue
         if rng.random() < 0.06:
             # values added to the header through its own API (multi-valued tags)
             c = {"k": "header-add", "start": rng.choice(HEADER_START), "vlevel": rng.randrange(4),
@@ -220,7 +225,58 @@ def run_header_add(case, ctx):
         ctx.nontriv([case["start"], case["adds"], case["vlevel"]])
 
 
+JOURNAL_REFUSED = ["E\t%(n)s\ts1+\t%(n)s-\t0\t10\t90\t100$\t*", "G\t%(n)s\ts1+\t%(n)s-\t10\t*", "E\t%(n)s\tx+\tu1-\t0\t10\t90\t100$\t*",
+                   "E\t%(n)s\tx-\tu1+\t0\t10\t90\t100$\t*", "F\tu1\tread+\t0\t10\t0\t10\t*", "G\t%(n)s\tx+\tu1-\t10\t*",
+                   "O\t%(n)s\ts1+ %(n)s+", "E\t%(n)s\ty+\to1-\t0\t10\t90\t100$\t*", "F\tx\tread+\t0\t10\t0\t10\t*"]
+JOURNAL_ACCEPTED = ["S\ts3\t100\t*", "S\ts4\t50\t*", "E\t*\ts1+\ts2+\t90\t100$\t0\t10\t*", "# comment"]
+
+
+def run_journal(case, ctx):
+    """a group refers to identifiers which are not defined yet (placeholders of unknown type); several
+    additions which are refused while their references are being created follow each other, with
+    accepted ones in between: each refused call leaves the Gfa -- and the placeholders -- as they were."""
+    import gfapy
+    from ..mon import obs as O
+    from ..mon.client import call
+    g = gfapy.Gfa(version="gfa2", vlevel=case["vlevel"])
+    for l in ["S\ts1\t100\t*", "S\ts2\t100\t*", "U\tu1\ts1 x", "O\to1\ts1+ y+"][:case["nbase"]]:
+        if not call(ctx, "add_line(str)", g.add_line, l).ok:
+            return
+
+    def snap():
+        types = {}
+        for n in ("x", "y"):
+            r = call(ctx, "line(name)", g.line, n)
+            types[n] = (r.value.record_type, bool(r.value.virtual)) if r.ok and r.value is not None else None
+        return O.obs(g), types
+    nref = 0
+    for i, (kind, j) in enumerate(case["steps"]):
+        if kind == "ok":
+            call(ctx, "add_line(str)", g.add_line, JOURNAL_ACCEPTED[j])
+            continue
+        line = JOURNAL_REFUSED[j] % {"n": "n%d" % i}
+        before = snap()
+        r = call(ctx, "add_line(str)", g.add_line, line)
+        ctx.count("steps")
+        if r.ok:
+            return          # (accepted: not the scenario)
+        nref += 1
+        ctx.count("failing_calls")
+        ctx.count("journal_refusals")
+        after = snap()
+        if after != before:
+            d = O.diff_obs(before[0], after[0]) if before[0] != after[0] else ["placeholder types %r -> %r" % (before[1], after[1])]
+            ctx.violation("state-changed-by-failed-call/consecutive-refusals/%s" % ("placeholder-type" if before[0] == after[0] else H._what_changed(d)),
+                          "refusal no. %d: add_line(%r) raised %s but the Gfa changed:\n  %s\n steps %r"
+                          % (nref, line, r.cls(), "\n  ".join(d[:4]), case["steps"]))
+            return
+    if nref >= 2:
+        ctx.nontriv(case["steps"])
+
+
 def run(case, ctx):
+    if case.get("k") == "journal":
+        return run_journal(case, ctx)
     if case.get("k") == "unknown-version":
         return run_unknown_version(case, ctx)
     if case.get("k") == "header-add":
